@@ -16,6 +16,19 @@ VARIANTS = [
                  "        let coeff2 = power * (power - 1.) * self.real.powf(power - 2.);\n        let beta_cross = fouter11_(&self.dual.view(), &self.dual.view());\n        Dual2 {\n            real: self.real.powf(power),\n            vars: Arc::clone(self.vars()),")]),
     dict(name="c02_from_dual2_drops_gradient", prop="C02", expect=r"R02\.4:From<&Dual2> for Dual",
          edits=[("rust/dual/dual_ops/from.rs", "            dual: value.dual.clone(),\n        }\n    }\n}\n\nimpl From<f64> for Dual2", "            dual: value.dual.clone() * 1.0000001,\n        }\n    }\n}\n\nimpl From<f64> for Dual2")]),
+    # ---- C18 / C19
+    dict(name="c18_number_sub_operands_swapped", prop="C18", expect=r"R18\.3:.*Sub.*Number.*\[Dual,F64\]",
+         edits=[("rust/dual/dual_ops/sub.rs", "(Number::Dual(d), Number::F64(f2)) => Number::Dual(d - f2),", "(Number::Dual(d), Number::F64(f2)) => Number::Dual(f2 - d),")]),
+    dict(name="c18_set_order_clone_drops_vars", prop="C18", expect=r"R18\.1:set_order_clone\(F64->Two\)",
+         edits=[("rust/dual/dual_ops/convert.rs", "(Number::F64(f), ADOrder::Two) => Number::Dual2(Dual2::new(*f, vars)),", "(Number::F64(f), ADOrder::Two) => Number::Dual2(Dual2::new(*f, vec![])),")]),
+    dict(name="c18_mixed_kinds_computed", prop="C18", expect=r"R18\.3:.*Mul.*\[Dual,Dual2\]",
+         edits=[("rust/dual/dual_ops/mul.rs", '(Number::Dual(_), Number::Dual2(_)) => {\n            panic!("Cannot mix dual types: Dual * Dual2")\n        }', "(Number::Dual(d), Number::Dual2(d2)) => Number::Dual2(Dual2::from(d) * d2),")]),
+    dict(name="c19_abs_keeps_hessian_sign", prop="C19", expect=r"R19\.2:.*Dual2.*abs",
+         edits=[("rust/dual/dual_ops/signed.rs", "                dual2: -1.0 * &self.dual2,", "                dual2: self.dual2.clone(),")]),
+    dict(name="c19_rem_rounds_instead_of_truncating", prop="C19", expect=r"R19\.3:.*Rem<&Dual> for &Dual>::rem",
+         edits=[("rust/dual/dual_ops/rem.rs", "impl_op_ex!(% |a: &Dual, b: &Dual| -> Dual {\n    let d = f64::trunc(a.real / b.real);", "impl_op_ex!(% |a: &Dual, b: &Dual| -> Dual {\n    let d = f64::round(a.real / b.real);")]),
+    dict(name="c19_float_vs_dual_compare_swapped", prop="C19", expect=r"R19\.1:.*PartialOrd<Dual> for f64",
+         edits=[("rust/dual/dual_ops/ord.rs", "impl PartialOrd<Dual> for f64 {\n    fn partial_cmp(&self, other: &Dual) -> Option<Ordering> {\n        self.partial_cmp(&other.real)", "impl PartialOrd<Dual> for f64 {\n    fn partial_cmp(&self, other: &Dual) -> Option<Ordering> {\n        other.real.partial_cmp(self)")]),
     # ---- C07
     dict(name="c07_drop_ldn_literal", prop="C07", expect=r"R07\.2:table=ldn:missing",
          edits=[("rust/calendars/named/ldn.rs", '    "2031-04-11 00:00:00",\n', "")]),
